@@ -174,6 +174,37 @@ func %s() {
 `, sc.id, name, sc.call)
 		fam.Instances = append(fam.Instances, Instance{Func: name, Stratum: "sequence:" + sc.id, Desc: sc.id + " then whole-set models on the same builder", Expect: []string{"executed"}})
 	}
+	// selected mix / inverse variants with an unknown name between, before and after the known ones
+	for _, sc := range []struct{ id, call string; sorted1, sorted2 bool }{
+		{"SelMix", "eng.ExecuteSelectedRulesMixModel(rb, names)", true, false},
+		{"SelInverse", "eng.ExecuteSelectedRulesInverseMixModel(rb, names)", false, true},
+	} {
+		for k, lst := range []string{`[]string{"r1", "zz", "r0"}`, `[]string{"zz", "r2", "r1"}`, `[]string{"r0", "zz", "yy", "r2"}`} {
+			name := fmt.Sprintf("Q_%s_unknown_%d", sc.id, k)
+			cand := []string{"[]bool{true, true, false}", "[]bool{false, true, true}", "[]bool{true, false, true}"}[k]
+			n1, n2 := 1, 1
+			if sc.id == "SelInverse" {
+				n1, n2 = 1, 1
+			}
+			fmt.Fprintf(&b, `
+// %s with names %s
+func %s() {
+	n := 3
+	s := symSal(n)
+	f := symFlags("f", n)
+	rb := build(n, s, f)
+	eng := engine.NewGengine()
+	names := %s
+	err := %s
+	vnd.Event("ret")
+	vnd.Quiesce()
+	vnd.Reach("executed")
+	checkTwoStageCand(vnd.Trace(), n, %s, %d, %d, %v, %v, s, f, false, err)
+}
+`, sc.id, lst, name, lst, sc.call, cand, n1, n2, sc.sorted1, sc.sorted2)
+			fam.Instances = append(fam.Instances, Instance{Func: name, Stratum: "selected-unknown:" + sc.id, Desc: sc.id + " with names " + lst, Expect: []string{"executed"}})
+		}
+	}
 	// the set was extended at its tail by an incremental build and the new rule re-sent before the staged models run
 	for _, wc := range []struct{ id, call string }{
 		{"Mix", "eng.ExecuteMixModel(rb)"},
